@@ -197,14 +197,16 @@ def r_resolution_order(cx):
           "the pipeline test precedes every name lookup" if ok else
           "a name lookup in Op::op is not preceded by the pipeline test", where)
     # 2. user operators only for names without colon, macros only for names with colon
-    sw_bb = f.term(res_test[0]).get("target")
-    sw = f.term(sw_bb) if sw_bb is not None else None
-    ok = False
-    if sw and sw["k"] == "switch":
-        colon = sw["otherwise"]
-        nocolon = sw["targets"][0][1] if sw["targets"] else None
-        ok = nocolon is not None and f.dominates(nocolon, get_op[0]) and f.dominates(colon, get_res[0]) and \
-            not f.dominates(colon, get_op[0]) and not f.dominates(nocolon, get_res[0])
+    # what the branch decisions establish where the two look-ups are made (also through a stored `is_macro` flag)
+    import guards
+    rterm = mir.strip_refs(f.call_term(f.term(res_test[0]), res_test[0]))
+
+    def known(bb):
+        for at, tv in guards.branch_facts(f, bb):
+            if mir.strip_refs(at) == rterm:
+                return tv
+        return None
+    ok = known(get_op[0]) is False and known(get_res[0]) is True
     cx.ob("R-RESOLUTION-ORDER", "colon-split", ok,
           "user-registered operators are looked up for names without a colon, macros for names with a colon" if ok else
           "the user-operator / macro lookups of Op::op are not split by is_resource_name()", where)
